@@ -21,7 +21,8 @@ MIN_COUNTERS = dict(quick={'asserted:unary': 6000, 'asserted:binary': 1500, 'ass
                            'asserted:compose': 1000, 'asserted:reduction_z2_is_zero': 500,
                            'asserted:multicomplex_pattern': 500, 'via_ufunc': 2000, 'array_arguments': 1000},
                     thorough={'asserted:unary': 300000})
-RULE = ('all 26 elementary methods (called directly and through numpy ufunc dispatch), the ring operators with '
+RULE = ('Base points of log / sqrt / powers also tiny (1e-30..1e-14, perturbations relative to x); quotient functions up to |x| = 1000. ' 
+        'all 26 elementary methods (called directly and through numpy ufunc dispatch), the ring operators with '
         'bicomplex and real operands, integer/real/bicomplex powers and rpow, and random compositions of depth <= 3; '
         'arguments x + i h1 + j h2 + ij h12 with x in the real domain of f and |h| = |x| 10^U(-8,-1) (each component '
         'independently, sometimes 0), scalar and array. distinct non-trivial = (function/operator, decade of the '
@@ -188,13 +189,13 @@ QUOTIENT_FUNCS = ('tanh', 'coth', 'sech', 'csch')
 
 
 def quotient_overflow(tree, x):
-    """True if the program applies tanh/coth/sech/csch to an argument beyond +-350, where the library forms
-    sinh/cosh quotients through mod_c (squares overflow above 1e154)."""
+    """True if the program applies tanh/coth/sech/csch to an argument beyond +-700, where the sinh and cosh the library
+    forms the quotient of overflow themselves (below that the scaled reciprocal keeps the quotient finite)."""
     for node in X.nodes(tree):
         if node[0] == 'fn' and node[1] in QUOTIENT_FUNCS:
             try:
                 v = X._eval_c(node[2], complex(x))
-                if abs(v.real) > 350:
+                if abs(v.real) > 700:
                     return True
             except Exception:
                 pass
